@@ -1,5 +1,8 @@
 SPECIFICATION Spec
 CONSTANTS
+  OrbKinds = {"n", "P", "a"}
+  SpinKinds = {"f", "p"}
+  AllowDeferred = FALSE
   SpinSync = FALSE
   ObliqOn = FALSE
   FixTerms = FALSE
